@@ -1,5 +1,6 @@
 from ..mesh.mesh_data import RawMeshData
 from ..utils import keyify
+from ..geometry.geometry import det_3x3
 from ..mesh.datatypes import *
 from ..mesh.mesh_attributes import Attribute
 
@@ -124,8 +125,16 @@ def extract_boundary_of_volume(mesh : VolumeMesh) -> SurfaceMesh :
         bound.vertices.append(mesh.vertices[v])
         map_m2b[v] = i
         map_b2m[i] = v
-    # apply ordering to faces
+    # apply ordering to faces and orient them outwards (same test as VolumeMesh._BoundaryConnectivity)
     for i, iF in enumerate(bound.faces):
-        bound.faces[i] = tuple(( map_m2b[v] for v in mesh.faces[iF]))
+        face = list(mesh.faces[iF])
+        iC = mesh.connectivity.face_to_cells(iF)[0]
+        D = [x for x in mesh.cells[iC] if x not in face][0] # a vertex of the adjacent cell that is not on the face
+        pA,pB,pC = (mesh.vertices[_x] for _x in face[:3])
+        pD = mesh.vertices[D]
+        if det_3x3(pA-pD,pB-pD,pC-pD)>0:
+            bound.faces[i] = tuple(( map_m2b[v] for v in face))
+        else:
+            bound.faces[i] = tuple(( map_m2b[v] for v in face[::-1]))
     bound.prepare() # ordering will be propagated to edges
     return SurfaceMesh(bound), map_m2b, map_b2m
